@@ -107,7 +107,9 @@ pub fn run(run: Run) -> ! {
                 // start values: far away, Default, equal to the property's own 0% value
                 let own0 = P { a: rt.a.frames.first().map(|f| f.1 as f32).unwrap_or(0.0), k: rt.k.frames.first().map(|f| f.1 as i32).unwrap_or(0), ..P::default() };
                 let rank = rank | ti as u64;
-                for (sti, st) in [vstar(), P::default(), own0].into_iter().enumerate() {
+                // ... and large odd numbers that f32 still represents exactly (2^23+1, -(2^23+1), 2^24-1)
+                let big_odd = P { a: 8_388_609.0, k: -8_388_609, d: 16_777_215.0, ..P::default() };
+                for (sti, st) in [vstar(), P::default(), own0, big_odd].into_iter().enumerate() {
                     let mut tls = twin.clone();
                     // every other case substitutes twice: only the latest start value may matter, and the
                     // configured 0% frame must survive both substitutions
@@ -207,7 +209,7 @@ pub fn run(run: Run) -> ! {
     cov.insert("traces_validated_against_impl".into(), json!(acc.evals));
     cov.insert("evaluations".into(), json!(acc.evals));
     cov.insert("distinct_nontrivial".into(), json!(acc.exact_start + acc.twin_equal + acc.first_segment));
-    cov.insert("rule".into(), json!(format!("keyframe lists of size 0..={nmax} (per-property distinct positions) x 13 timings (repeat None/Times/Infinite, with and without reverse, delays 0,1/4,1/2) x 3 start values (far away, Default, equal to the 0% value; in every other case preceded by an earlier, different start_with) x time grid with 64 points per cycle; twin = same build without start_with; clauses: t<=delay => exactly v (bit-equal) [{}], first forward pass before the property's second frame => RefCss with the 0% value replaced by v [{}], everything else (beyond the second frame, reverse pass, later cycles, after the end) bit-equal to the twin [{}]; plus merged pairs", acc.exact_start, acc.first_segment, acc.twin_equal)));
+    cov.insert("rule".into(), json!(format!("keyframe lists of size 0..={nmax} (per-property distinct positions) x 13 timings (repeat None/Times/Infinite, with and without reverse, delays 0,1/4,1/2) x 4 start values (far away, Default, equal to the 0% value, large odd numbers 2^23+1 / -(2^23+1) / 2^24-1 that f32 holds exactly; in every other case preceded by an earlier, different start_with) x time grid with 64 points per cycle; twin = same build without start_with; clauses: t<=delay => exactly v (bit-equal) [{}], first forward pass before the property's second frame => RefCss with the 0% value replaced by v [{}], everything else (beyond the second frame, reverse pass, later cycles, after the end) bit-equal to the twin [{}]; plus merged pairs", acc.exact_start, acc.first_segment, acc.twin_equal)));
     cov.insert("exhaustive".into(), json!(true));
     cov.insert("samples".into(), json!(acc.samples));
     run.finish(acc.sink, cov, vec!["loop-state flags at pass boundaries are pinned by C03".into()])
